@@ -363,10 +363,34 @@ impl CompactEncoding for PartialKeypair {
     open spec fn enc_ok(&self) -> bool { true }
     open spec fn dec_ok(d: Self) -> bool { true }
     open spec fn eqv(a: Self, b: Self) -> bool { keypair_eqv(a, b) }
-    #[verifier::external_body] fn encoded_size(&self) -> (r: Result<usize, EncodingError>) ensures r is Ok ==> r->Ok_0 <= 99 { unimplemented!() }
-    #[verifier::external_body] fn encode<'a>(&self, buffer: &'a mut [u8]) -> (r: Result<&'a mut [u8], EncodingError>) { unimplemented!() }
+    /*@ fn src/oplog/header.rs CompactEncoding for PartialKeypair::encoded_size ; novis
+    tags: C06 C12
+    result: r
+    ensures:
+        r is Ok ==> r->Ok_0 <= 99
+    last:
+        proof { lemma_keypair_enc(*self); }
+    @*/
+    /*@ fn src/oplog/header.rs CompactEncoding for PartialKeypair::encode ; novis
+    tags: C06 C12
+    sub `\[&(.*?)\[\.\.\], &(.*?)\[\.\.\]\]\.concat\(\)` => `vp_concat2(&\1, &\2)`
+    first:
+        proof { lemma_keypair_enc(*self); assert(enc_uint(32) =~= seq![32u8]); assert(enc_uint(64) =~= seq![64u8]); }
+    @*/
     #[verifier::external_body] fn decode(buffer: &[u8]) -> (r: Result<(Self, &[u8]), EncodingError>) { unimplemented!() }
 }
+/// the key pair of a header: the public key as a 32-byte buffer, then the secret key as a 64-byte buffer (secret ++ public)
+/// or, when the core holds no secret key, a single zero byte - in particular no secret key bytes at all (C12)
+pub proof fn lemma_keypair_enc(d: PartialKeypair)
+    ensures enc_keypair(d).len() == (if d.secret is Some { 98int } else { 34int }),
+        d.secret is None ==> enc_keypair(d) == seq![32u8] + d.public.bytes() + seq![0u8]
+{ broadcast use ed25519_dalek::group_key_lens; }
+/// `[a, b].concat()` of two byte strings
+#[verifier::external_body]
+pub fn vp_concat2(a: &[u8; 32], b: &Vec<u8>) -> (r: Vec<u8>)
+    ensures r@ == a@ + b@
+{ [&a[..], &b[..]].concat() }
+
 impl CompactEncoding for Manifest {
     open spec fn spec_enc(&self) -> Seq<u8> { Self::dec_enc(*self) }
     open spec fn dec_enc(d: Self) -> Seq<u8> { enc_manifest(d) }
